@@ -9,7 +9,7 @@ def main():
     c.correspond("rbcsys")
     c.correspond("disphonest")
     return c.finish(
-        rule="rbc: one real rbc.Receiver per session (N in 2..6) under mostly-valid scripts (direct copies + acknowledgements of all other members, shuffled) with injected deviations "
+        rule="disphonest: fault-free dispatcher-level sessions of real Schemes with scripted backends over the real encodings (identifier sets {1,2,3}, {5,44,300}, {0,255,256,65535}, ..., every third with a rotated node->party map): what is handed over is attributed to the party of the authenticated source node. rbc: one real rbc.Receiver per session (N in 2..6) under mostly-valid scripts (direct copies + acknowledgements of all other members, shuffled) with injected deviations "
              "(self-acknowledgement, replay, conflicting digest, short digest, non-member, re-sent payload, attributed to self) and an unstructured stream; disp: the same through the real "
              "dispatcher with byte-level mutations and outsiders. A case = one distinct operation line; non-trivial = all but set-up lines. Direct monitors on the implementation's "
              "hand-over log with multiplicities: placeholder, duplicates per (sender, round), payload not received directly, outsider traffic with any effect, altered point-to-point.",
